@@ -74,12 +74,23 @@ package tmmirror
 //@   requires candidate-keys-present: len(proof.Keys) > 0
 //@   ensures result0 == nil || fresh(result0)
 //@   modifies nothing
+// A proposed header for the height after the voting height makes the mirror apply the header's previous commit proof
+// and check the header again. lastBackfill(0) is a specification-only record of what the last such attempt returned
+// (0: none yet, 1: accepted, 2: not accepted); the contract below only defines it (hence trusted: there is no code to
+// compare it with). HandleProposedHeader may go round again only after an accepted attempt: an attempt that is not
+// accepted changed nothing in the kernel, so the same answer would come back forever (C09: never stops serving).
+//@ ghost lastBackfill(ref) mathint
+//@ func Mirror.backfillCommitForNextHeightPE
+//@   trusted
+//@   ensures lastBackfill(0) == (result == backfillCommitAccepted ? 1 : 2)
+//@   modifies memory except Mirror, ghost pbits, lastBackfill(0)
 // What the kernel reports with an "acceptable" check: a previous validator set, when it reports one, has positive total power.
 //@ func Mirror.HandleProposedHeader
 //@   property C04 C09
-//@   option explicit-panics allowed
 //@   option frame off
 //@   requires m.hashScheme != nil && m.sigScheme != nil && m.cmspScheme != nil && m.vs != nil && m.rs != nil
+//@   requires lastBackfill(0) == 0
+//@   loop[C09] 1 invariant checked-again-only-after-an-accepted-backfill: lastBackfill(0) != 2
 //@   rely after Mirror.phCheckRequests previous-validators-have-power: (len(response.PrevValidatorSet.PubKeys) == 0 ||
 //@       psum(response.PrevValidatorSet.Validators, allbits(), len(response.PrevValidatorSet.Validators)) > 0) &&
 //@       psum(response.PrevValidatorSet.Validators, allbits(), len(response.PrevValidatorSet.Validators)) <= MAXU64
